@@ -30,6 +30,12 @@ pub enum OpKind {
     /// its k-th operation (k derived from the input seed); observable = the bits accepted before the
     /// failure and the error
     FailingWrite,
+    /// frame-level encode, every frame re-headed through `Frame::into_parts` / `FrameHeader::new` / `Frame::new` with
+    /// variable-blocking (start-sample) headers, assembled with `Stream::add_frame`, written into a `ByteSink`;
+    /// block sizes change from frame to frame when the input seed is odd
+    AssembledVariable,
+    /// the same with fixed-blocking headers (identical specifier bits, the other blocking strategy)
+    AssembledFixed,
 }
 
 #[derive(Clone, Debug, PartialEq, Serialize, Deserialize)]
@@ -127,6 +133,16 @@ fn exec_inner(op: &Op) -> Result<Vec<u8>, String> {
                 Err(_) => 2,
             });
         }
+        OpKind::AssembledVariable | OpKind::AssembledFixed => {
+            let variable = op.kind == OpKind::AssembledVariable;
+            let base = StreamCase { cfg: cfg.clone(), inp: op.inp.clone(), entry: Entry::Frames, src: op.src };
+            let asm = super::assembled::Asm { variable, ragged: variable && op.inp.seed & 1 == 1, seed: op.inp.seed, first: 0 };
+            let (s, _) = super::assembled::build(&base, &asm, &samples).map_err(|e| match e {
+                RunErr::Panic(p) => format!("panic-in-build:{}", p.sig()),
+                other => format!("{other:?}"),
+            })?;
+            out = enc::stream_bytes(&s, limit)?;
+        }
         OpKind::ParseBack => {
             let s = enc::encode_stream(&v, &samples, ch, bps, rate, block, op.src)?;
             let bytes = enc::stream_bytes(&s, limit)?;
@@ -163,6 +179,7 @@ pub fn check(h: &History) -> Outcome {
     for (i, op) in h.ops.iter().enumerate() {
         let alone = fresh(|| exec(op));
         out.class(format!("op:{:?}", op.kind));
+        out.class(format!("op:{:?}:{}", op.kind, alone.note.split(':').next().unwrap_or("")));
         if alone.note.starts_with("panic:") {
             // a panic of a valid call made alone is C01's business; it is reported here too because the
             // history oracle cannot be evaluated
@@ -255,7 +272,7 @@ pub fn alpha_pool() -> Vec<u32> {
 }
 
 fn op_strategy(blocks: Vec<usize>, budget: usize) -> BoxedStrategy<Op> {
-    let kind = prop_oneof![5 => Just(OpKind::Stream), 3 => Just(OpKind::Frames), 2 => Just(OpKind::Precomputed), 2 => Just(OpKind::ParseBack), 1 => Just(OpKind::Multi), 3 => Just(OpKind::FailingWrite)];
+    let kind = prop_oneof![5 => Just(OpKind::Stream), 3 => Just(OpKind::Frames), 2 => Just(OpKind::Precomputed), 2 => Just(OpKind::ParseBack), 1 => Just(OpKind::Multi), 3 => Just(OpKind::FailingWrite), 2 => Just(OpKind::AssembledVariable), 1 => Just(OpKind::AssembledFixed)];
     let window = prop_oneof![1 => Just(None), 5 => proptest::sample::select(alpha_pool()).prop_map(Some), 1 => gen::alpha_bits_strategy().prop_map(Some)];
     (proptest::sample::select(blocks), gen::cfg_strategy(CfgOpts { max_block: 4608, ..Default::default() }), kind, window, src_strategy(), any::<bool>())
         .prop_flat_map(move |(block, mut cfg, kind, window, src, force_lpc)| {
@@ -306,11 +323,47 @@ pub fn window_pair_strategy() -> BoxedStrategy<History> {
         .boxed()
 }
 
+/// Two or three ops on the same (config, input) that differ only in the blocking strategy of the headers they write.
+pub fn blocking_pair_strategy() -> BoxedStrategy<History> {
+    (op_strategy(vec![32, 64, 192, 256, 1000, 1152], 3000), proptest::collection::vec(proptest::sample::select(vec![OpKind::Stream, OpKind::Frames, OpKind::AssembledVariable, OpKind::AssembledFixed, OpKind::Precomputed]), 2..=3))
+        .prop_map(|(mut a, kinds)| {
+            a.inp.seed &= !1; // equal block sizes: identical specifier bits in both strategies
+            History { ops: kinds.into_iter().map(|k| { let mut o = a.clone(); o.kind = k; o }).collect() }
+        })
+        .boxed()
+}
+
+/// Two ops whose buffers have the same total size (channels x block size) but a different shape.
+pub fn same_product_strategy() -> BoxedStrategy<History> {
+    (op_strategy(vec![64], 4000), op_strategy(vec![64], 4000), 1usize..=8, 1usize..=8, 4usize..=500, any::<bool>())
+        .prop_map(|(mut a, mut b, c1, c2, k, frames)| {
+            let c2 = if c1 == c2 { c1 % 8 + 1 } else { c2 };
+            let k = k.max((32 + c1.min(c2) - 1) / c1.min(c2)).min(4608 / c1.max(c2));
+            let set = |o: &mut Op, ch: usize, block: usize, other: &InputSpec| {
+                o.cfg.block_size = block;
+                o.inp.channels = ch;
+                while o.inp.chans.len() < ch {
+                    let c = o.inp.chans[o.inp.chans.len() % o.inp.chans.len().max(1)].clone();
+                    o.inp.chans.push(c);
+                }
+                o.inp.chans.truncate(ch);
+                o.inp.bps = other.bps;
+                o.inp.len = (block * 2 + block / 3).min(9000 / ch + block);
+                o.kind = if frames { OpKind::Frames } else { OpKind::Stream };
+            };
+            let ai = a.inp.clone();
+            set(&mut a, c1, k * c2, &ai);
+            set(&mut b, c2, k * c1, &ai);
+            History { ops: vec![a, b] }
+        })
+        .boxed()
+}
+
 pub fn run(ctx: &Ctx) {
     ctx.rule(
-        "histories = vec(op, 2..=7) executed on one long-lived thread, op in {stream encode+write, frame-level encode + per-frame write to MemSink<u64>, precompute_bitstream + write to MemSink<u64>, encode+write+parse+decode+re-serialise, multi-thread encode} with generated valid (config, input); \
+        "histories = vec(op, 2..=7) executed on one long-lived thread, op in {stream encode+write, frame-level encode + per-frame write to MemSink<u64>, precompute_bitstream + write to MemSink<u64>, encode+write+parse+decode+re-serialise, multi-thread encode, write into a failing user sink, hand-assembled streams with variable-blocking or fixed-blocking headers built through Frame::into_parts / FrameHeader::new / Frame::new} with generated valid (config, input); \
          block sizes come from a per-history pool of 1..=3 sizes (32..=2304) so that steps change channels (1..=8), widths (8..=24), LPC order, Rice limits and window parameters at a fixed buffer size as well as shrinking/growing the buffers; window parameters from a pool with near-collisions (0, 1e-6, subnormal, 0.4, 0.4+1ulp, 0.4+0.6/65535, 1-ulp, 1, ...); \
-         oracle: the observable bytes of every op equal those of the same op executed alone on a freshly spawned thread; second family: pairs of ops that differ only in the window parameter; \
+         oracle: the observable bytes of every op equal those of the same op executed alone on a freshly spawned thread; second family: pairs of ops that differ only in the window parameter; third: 2-3 ops on the same (config, input) that differ only in how the stream is produced (stream-level, frame-level, precomputed, variable-blocking or fixed-blocking re-headed frames: same specifier bits, other blocking strategy); fourth: pairs whose buffers have the same total size channels x block size but another shape; \
          evaluations = ops executed inside histories; non-trivial = history with >= 2 ops whose (block size, channels, width, window) differ; distinct by hash of the history",
     );
     ctx.assume("a fresh OS thread has pristine thread-local scratch storage (the library keeps its reusable buffers in thread_local! cells only)");
@@ -318,6 +371,8 @@ pub fn run(ctx: &Ctx) {
     let per = ctx.tier.scale(150, 20);
     ctx.search("history", 16, per, &|| history_strategy(7, 6000), check);
     ctx.search("window-pair", 16, per, &|| window_pair_strategy(), check);
+    ctx.search("blocking-pair", 16, per, &|| blocking_pair_strategy(), check);
+    ctx.search("same-product-pair", 16, per, &|| same_product_strategy(), check);
     if ctx.tier == crate::core::Tier::Thorough {
         ctx.search("history-long", 16, 300, &|| history_strategy(12, 20000), check);
     }
